@@ -492,3 +492,91 @@ Proof.
   - apply IH. change ((a :: p) ++ [45; 45; 62] ++ q) with (a :: (p ++ [45; 45; 62] ++ q)) in H.
     cbn [has_cend] in H. apply orb_false_iff in H as [_ H]. exact H.
 Qed.
+
+(* ------------------------------------------------------------ programs that abort *)
+Lemma cut_ctx_unfold t a body :
+  cut (SCtx t a body) = let '(b', r) := cutl body in ([SCtx t a b'], r).
+Proof. reflexivity. Qed.
+
+Definition cut_ok (p : stmt) : Prop :=
+  forallb pure (fst (cut p)) = true /\
+  forall st, exec p st = (appended st (flat_map (rs (w_indent st)) (fst (cut p))), snd (cut p)).
+
+Lemma flat_map_rs_app i a b : flat_map (rs i) (a ++ b) = flat_map (rs i) a ++ flat_map (rs i) b.
+Proof. apply flat_map_app. Qed.
+
+Lemma cutl_ok l : Forall (fun p => ctx_only p = true -> cut_ok p) l -> forallb ctx_only l = true ->
+  forallb pure (fst (cutl l)) = true /\
+  forall st, exec_list l st = (appended st (flat_map (rs (w_indent st)) (fst (cutl l))), snd (cutl l)).
+Proof.
+  induction l as [|x r IH]; intros Hf Hc.
+  - split; [reflexivity|]. intro st. simpl. rewrite appended_nil. reflexivity.
+  - inversion Hf as [|? ? Hx Hr]; subst. simpl in Hc. apply andb_true_iff in Hc as [Hcx Hcr].
+    destruct (Hx Hcx) as [Hpx Hex]. destruct (IH Hr Hcr) as [Hpr Her].
+    cbn [cutl]. destruct (cut x) as [x' rx] eqn:Ex. cbn [fst snd] in *.
+    destruct rx.
+    + split; [exact Hpx|]. intro st. cbn [exec_list]. rewrite Hex. reflexivity.
+    + destruct (cutl r) as [r' rr] eqn:Er. cbn [fst snd] in *. split.
+      * rewrite forallb_app, Hpx, Hpr. reflexivity.
+      * intro st. cbn [exec_list]. rewrite Hex. rewrite Her. cbn [appended w_indent].
+        rewrite appended_app, flat_map_app. reflexivity.
+Qed.
+
+Theorem cut_spec : forall p, ctx_only p = true -> cut_ok p.
+Proof.
+  apply (stmt_ind_nested (fun p => ctx_only p = true -> cut_ok p)).
+  - intros t a d _. split; [reflexivity|]. intro st. cbn [cut fst snd flat_map]. rewrite app_nil_r. reflexivity.
+  - intros x _. split; [reflexivity|]. intro st. cbn [cut fst snd flat_map]. rewrite app_nil_r. reflexivity.
+  - intros t a body Hbody Hc. cbn [ctx_only] in Hc.
+    destruct (cutl_ok body Hbody Hc) as [Hpb Heb].
+    unfold cut_ok. rewrite cut_ctx_unfold. destruct (cutl body) as [b' rb] eqn:Eb. cbn [fst snd] in *.
+    split; [cbn [forallb pure]; rewrite Hpb; reflexivity|].
+    intro st. cbn [flat_map]. rewrite app_nil_r.
+    assert (Hpure : pure (SCtx t a b') = true) by exact Hpb.
+    pose proof (exec_pure _ Hpure st) as Hp. rewrite exec_ctx_unfold in Hp.
+    rewrite (exec_list_pure b') in Hp; [| apply Forall_forall; intros q _; apply exec_pure | exact Hpb].
+    rewrite exec_ctx_unfold, Heb.
+    change (w_indent (push_tag st t a)) with (w_indent st + 2)%Z in *.
+    destruct (pop_tag (appended (push_tag st t a) (flat_map (rs (w_indent st + 2)) b'))) as [st3 r3].
+    injection Hp as -> Hr3. cbn [orb] in Hr3. subst r3. rewrite orb_false_r. reflexivity.
+  - intros t a H. discriminate.
+  - intro H. discriminate.
+  - intros _. split; [reflexivity|]. intro st. cbn [cut fst snd flat_map exec]. rewrite appended_nil. reflexivity.
+Qed.
+
+Lemma wf_cutl l : Forall (fun p => wf p -> Forall wf (fst (cut p))) l -> Forall wf l -> Forall wf (fst (cutl l)).
+Proof.
+  induction l as [|x r IH]; intros Hf Hw; [constructor|].
+  inversion Hf as [|? ? Hx Hr]; subst. inversion Hw as [|? ? Hwx Hwr]; subst.
+  cbn [cutl]. destruct (cut x) as [x' rx] eqn:Ex. specialize (Hx Hwx). cbn [fst] in Hx.
+  destruct rx; [exact Hx|]. specialize (IH Hr Hwr). destruct (cutl r) as [r' rr]. cbn [fst] in *.
+  apply Forall_app. split; assumption.
+Qed.
+
+Theorem wf_cut : forall p, wf p -> Forall wf (fst (cut p)).
+Proof.
+  apply (stmt_ind_nested (fun p => wf p -> Forall wf (fst (cut p)))).
+  - intros t a d H. constructor; [exact H|constructor].
+  - intros x H. constructor; [exact H|constructor].
+  - intros t a body Hbody Hw. apply wf_ctx in Hw as (Ht & Ha & Hwb).
+    rewrite cut_ctx_unfold. pose proof (wf_cutl body Hbody Hwb) as Hb.
+    destruct (cutl body) as [b' rb]. cbn [fst] in *. constructor; [|constructor].
+    apply wf_ctx. split; [exact Ht|]. split; [exact Ha|exact Hb].
+  - intros t a _. constructor; [exact I|constructor].
+  - intros _. constructor; [exact I|constructor].
+  - intros _. constructor.
+Qed.
+
+Theorem document_roundtrip_abort l : forallb ctx_only l = true -> Forall wf l ->
+  xml_parse (fst (run_program l)) = Some (layout_doc (fst (cutl l))) /\
+  snd (run_program l) = snd (cutl l).
+Proof.
+  intros Hc Hw.
+  assert (Hf : Forall (fun p => ctx_only p = true -> cut_ok p) l)
+    by (apply Forall_forall; intros p _; apply cut_spec).
+  destruct (cutl_ok l Hf Hc) as [Hp He].
+  assert (Hw' : Forall wf (fst (cutl l))).
+  { apply wf_cutl; [|exact Hw]. apply Forall_forall. intros p _. apply wf_cut. }
+  pose proof (document_roundtrip _ Hp Hw') as Hd. rewrite run_program_pure in Hd by exact Hp.
+  unfold run_program. rewrite He. cbn [appended w_out w_init w_indent fst snd] in *. split; [exact Hd|reflexivity].
+Qed.
